@@ -296,6 +296,7 @@ type View struct {
 
 	AddrPool []types.Address
 	HashPool []types.Hash
+	Hot      []types.Address // addresses of special interest in this world (drawn more often)
 
 	// LongLived views never change: the order in which the api serves a list is looked up once
 	LongLived bool
@@ -677,10 +678,23 @@ func SmallView(c *pbt.C) *View {
 			h.ActProduce()
 		}
 	}
+	var hot []types.Address
+	if !h.Dead && c.Weighted("small.issueAtEnd", 1, 1) == 1 {
+		// a token issued in the last momentum: its contract blocks are still pooled
+		for _, in := range h.Intents {
+			if in.Name == "token-issue" && in.Try(h) {
+				h.Produce(0)
+				c.Class("small-world-ends-with-unconfirmed-token")
+				hot = []types.Address{types.TokenContract}
+				break
+			}
+		}
+	}
 	v, err := NewView("small", h.A, h.Users, pillarNames(h), false)
 	if err != nil {
 		c.Failf("C18/scan-error", "ledger scan of a small world failed: %v", err)
 	}
+	v.Hot = hot
 	return v
 }
 
